@@ -57,6 +57,11 @@ func (a *authCtx) describe(v ssa.Value, bind map[ssa.Value]ssa.Value, d int) str
 	switch x := v.(type) {
 	case *ssa.UnOp:
 		if x.Op == token.MUL {
+			if fa, ok := x.X.(*ssa.FieldAddr); ok {
+				if i := a.credField(fa); i >= 0 {
+					return fmt.Sprintf("cred:%d", i)
+				}
+			}
 			if ia, ok := x.X.(*ssa.IndexAddr); ok {
 				if k, ok := ia.Index.(*ssa.Const); ok && k.Value != nil {
 					return a.describe(ia.X, bind, d+1) + "[" + k.Value.ExactString() + "]"
@@ -155,6 +160,27 @@ func (a *authCtx) implied(v ssa.Value, truth bool, bind map[ssa.Value]ssa.Value,
 	case *ssa.BinOp:
 		if x.Op == token.EQL || x.Op == token.NEQ {
 			eq := (x.Op == token.EQL) == truth
+			// helper(...) == K: what the helper established where it returns K
+			if eq {
+				for _, pr := range [][2]ssa.Value{{x.X, x.Y}, {x.Y, x.X}} {
+					k, isK := pr[1].(*ssa.Const)
+					if !isK || k.Value == nil {
+						continue
+					}
+					switch cv := pr[0].(type) {
+					case *ssa.Call:
+						if f := a.impliedByCallConst(cv, 0, k.Value.ExactString(), bind, d); len(f) > 0 {
+							return f
+						}
+					case *ssa.Extract:
+						if call, ok := cv.Tuple.(*ssa.Call); ok {
+							if f := a.impliedByCallConst(call, cv.Index, k.Value.ExactString(), bind, d); len(f) > 0 {
+								return f
+							}
+						}
+					}
+				}
+			}
 			l, r := a.describe(x.X, bind, 0), a.describe(x.Y, bind, 0)
 			if strings.HasPrefix(l, "const:") || strings.HasPrefix(l, "cred:") {
 				l, r = r, l
@@ -194,6 +220,73 @@ func (a *authCtx) implied(v ssa.Value, truth bool, bind map[ssa.Value]ssa.Value,
 		return a.impliedByCall(x, 0, truth, bind, d)
 	}
 	return out
+}
+
+// credField: the field of an object built by the constructor from one of its credential parameters (field-based: the handler may
+// be a method of that object); returns the parameter's index or -1.
+func (a *authCtx) credField(fa *ssa.FieldAddr) int {
+	want := fieldKey(fa.X.Type(), fa.Field)
+	for _, b := range a.ctor.Blocks {
+		for _, ins := range b.Instrs {
+			st, ok := ins.(*ssa.Store)
+			if !ok {
+				continue
+			}
+			dst, ok := st.Addr.(*ssa.FieldAddr)
+			if !ok || fieldKey(dst.X.Type(), dst.Field) != want {
+				continue
+			}
+			if _, isAlloc := dst.X.(*ssa.Alloc); !isAlloc {
+				continue
+			}
+			if p, ok := st.Val.(*ssa.Parameter); ok {
+				for i, q := range a.ctor.Params {
+					if q == p {
+						return i
+					}
+				}
+			}
+		}
+	}
+	return -1
+}
+
+// impliedByCallConst: facts that hold when result #resIdx of the helper equals the constant want: the helper returns constants
+// (an enum verdict); the facts are those dominating the returns that yield that constant.
+func (a *authCtx) impliedByCallConst(call *ssa.Call, resIdx int, want string, bind map[ssa.Value]ssa.Value, d int) map[string]bool {
+	out := map[string]bool{}
+	sc := call.Common().StaticCallee()
+	if sc == nil || !isModuleFn(sc) || d > 6 {
+		return out
+	}
+	nb := map[ssa.Value]ssa.Value{}
+	for i, arg := range call.Common().Args {
+		if i < len(sc.Params) {
+			if b, ok := bind[arg]; ok {
+				nb[sc.Params[i]] = b
+			} else {
+				nb[sc.Params[i]] = arg
+			}
+		}
+	}
+	var acc map[string]bool
+	for _, r := range returnsOf(sc) {
+		if resIdx >= len(r.Results) {
+			continue
+		}
+		k, ok := r.Results[resIdx].(*ssa.Const)
+		if !ok || k.Value == nil {
+			return out // a computed result: nothing is known
+		}
+		if k.Value.ExactString() != want {
+			continue
+		}
+		acc = intersectFacts(acc, a.domFactsAt(r.Block(), nb, d+1))
+	}
+	if acc == nil {
+		return out
+	}
+	return acc
 }
 
 func (a *authCtx) impliedByCall(call *ssa.Call, resIdx int, truth bool, bind map[ssa.Value]ssa.Value, d int) map[string]bool {
@@ -330,11 +423,24 @@ var ruleK3 = &Rule{
 			}
 		}
 		find(ctor)
+		if handler == nil {
+			// the constructor may hand out a method of an authenticator object: look in the functions its result denotes
+			for _, r := range returnsOf(ctor) {
+				for _, res := range r.Results {
+					for _, f := range funcValuesOf(res) {
+						if handler == nil {
+							find(f)
+						}
+					}
+				}
+			}
+		}
 		if handler == nil || len(ctor.Params) != 2 {
 			return []Obl{{Key: name + " handler literal", Pos: c.pos(ctor.Pos()), Status: Undecided, Msg: "handler closure or the two credential parameters not recognised"}}
 		}
 		var serves []*ssa.Call
 		var errCalls []ssa.Instruction
+		nErr := 0
 		for _, b := range handler.Blocks {
 			for _, ins := range b.Instrs {
 				call, ok := ins.(*ssa.Call)
@@ -344,9 +450,31 @@ var ruleK3 = &Rule{
 				if call.Common().IsInvoke() && call.Common().Method.Name() == "ServeHTTP" {
 					serves = append(serves, call)
 				}
-				if sc := call.Common().StaticCallee(); sc != nil && sc.String() == "net/http.Error" && len(call.Common().Args) == 3 {
-					if k, ok := call.Common().Args[2].(*ssa.Const); ok && k.Value != nil && (k.Value.ExactString() == "401" || k.Value.ExactString() == "400") {
+				if isAuthErrorCall(call) {
+					errCalls = append(errCalls, call)
+					nErr++
+				} else if sc := call.Common().StaticCallee(); sc != nil && isModuleFn(sc) {
+					// a helper that answers 401 / 400 on every one of its paths
+					n := 0
+					for _, hb := range sc.Blocks {
+						for _, hi := range hb.Instrs {
+							if hc, ok := hi.(*ssa.Call); ok && isAuthErrorCall(hc) {
+								n++
+							}
+						}
+					}
+					all := n > 0
+					for _, r := range returnsOf(sc) {
+						if reachAvoiding(sc, nil, r, func(i ssa.Instruction) bool {
+							hc, ok := i.(*ssa.Call)
+							return ok && isAuthErrorCall(hc)
+						}) {
+							all = false
+						}
+					}
+					if all {
 						errCalls = append(errCalls, call)
+						nErr += n
 					}
 				}
 			}
@@ -385,9 +513,18 @@ var ruleK3 = &Rule{
 				bad++
 			}
 		}
-		add("every rejecting exit answers 401/400", bad == 0 && len(errCalls) >= 2, handler.Pos(), fmt.Sprintf("%d of %d exits can be reached without passing the request on or writing 401/400", bad, len(rets)))
+		add("every rejecting exit answers 401/400", bad == 0 && nErr >= 2, handler.Pos(), fmt.Sprintf("%d of %d exits can be reached without passing the request on or writing 401/400", bad, len(rets)))
 		return obls
 	},
+}
+
+func isAuthErrorCall(call *ssa.Call) bool {
+	if sc := call.Common().StaticCallee(); sc != nil && sc.String() == "net/http.Error" && len(call.Common().Args) == 3 {
+		if k, ok := call.Common().Args[2].(*ssa.Const); ok && k.Value != nil && (k.Value.ExactString() == "401" || k.Value.ExactString() == "400") {
+			return true
+		}
+	}
+	return false
 }
 
 func init() { register(ruleK3) }
